@@ -112,3 +112,91 @@ Definition gname_eqb (a b : option term) : bool :=
   | _, _ => false
   end.
 Definition gname_ok (a b : option term) (eq : bool) : bool := Bool.eqb (gname_eqb a b) eq.
+
+(* ===================== the CALLS made on the Hasher (strengthened harness) ===================== *)
+(* `Term::hash` is generic over the Hasher, and a Hasher may depend on how the bytes are split into calls
+   (FxHash eats every `write` by words, others mix in the length of each call): "equal terms hash identically" is
+   about the SEQUENCE OF CALLS, not only about the concatenated bytes of `hash_stream`.
+   A call = (method code, argument bytes): 0 = write(bytes), 1 = write_u8, 3 = write_u32, 12 = write_isize
+   (the numbering of the harness).  `TermKind: Hash` (derived) = one write_isize; `str: Hash` = write(utf8) then
+   write_u8(0xff); `char: Hash` = one write_u32. *)
+Definition hcall : Type := (N * list N)%type.
+Definition m_write : N := 0.
+Definition m_u8 : N := 1.
+Definition m_u32 : N := 3.
+Definition m_isize : N := 12.
+Definition calls_kind (k : kind) : list hcall := [(m_isize, le_bytes 8 (kind_rank k))].
+Definition calls_str (s : str) : list hcall := [(m_write, utf8 s); (m_u8, [255])].
+Definition call_char (c : N) : hcall := (m_u32, le_bytes 4 c).
+Fixpoint hash_calls (t : term) : list hcall :=
+  calls_kind (kind_of t) ++
+  match t with
+  | Iri s | Bnode s | Var s => calls_str s
+  | LitDt l d => calls_str l ++ calls_str d
+  | LitLang l tg => calls_str l ++ call_char 64 :: map call_char (lower tg)
+  | Triple s p o => hash_calls s ++ hash_calls p ++ hash_calls o
+  end.
+(* what a boundary-insensitive hasher (SipHash) sees *)
+Definition calls_bytes (cs : list hcall) : list N := flat_map snd cs.
+Definition hcall_eqb (a b : hcall) : bool := N.eqb (fst a) (fst b) && str_eqb (snd a) (snd b).
+(* the calls one representation made through one entry point *)
+Definition hash_calls_ok (t : term) (obs : list hcall) : bool := list_eqb hcall_eqb (hash_calls t) obs.
+
+(* ANY hasher: a state, a transition per call *)
+Definition run_hasher {S : Type} (step : S -> hcall -> S) (s0 : S) (t : term) : S :=
+  fold_left step (hash_calls t) s0.
+(* two boundary-sensitive hashers (for the non-vacuity examples): one mixes the length of every call in,
+   one eats every `write` by 4-byte little-endian words (FxHash style) *)
+Definition mix (h x : N) : N := ((h * 31 + x) mod 18446744073709551616).
+Definition lenmix_step (h : N) (c : hcall) : N := mix (fold_left mix (snd c) h) (N.of_nat (length (snd c))).
+Fixpoint words4 (fuel : nat) (b : list N) : list N :=
+  match fuel, b with
+  | S f, b0 :: b1 :: b2 :: b3 :: r => (b0 + 256 * (b1 + 256 * (b2 + 256 * b3))) :: words4 f r
+  | _, [] => []
+  | _, b0 :: r => [fold_right (fun x acc => x + 256 * acc) 0 (b0 :: r)]
+  end.
+Definition fx_step (h : N) (c : hcall) : N := fold_left mix (words4 (length (snd c)) (snd c)) h.
+
+(* NsTerm (namespace + suffix) has no hash of its own: the default Term::hash runs on its accessors, and
+   `iri()` hands out the concatenation *)
+Definition ns_hash_calls (ns suffix : str) : list hcall := hash_calls (Iri (ns ++ suffix)).
+(* what a hash "feeding the two parts directly" would do: same bytes, other calls *)
+Definition ns_split_calls (ns suffix : str) : list hcall :=
+  calls_kind KIri ++ [(m_write, utf8 ns); (m_write, utf8 suffix); (m_u8, [255])].
+
+(* ===================== the string stashes of sophia_term (gen_stash! in term/src/_macro.rs) ===================== *)
+(* a set of strings; `get_or_insert` inserts the probe when absent and returns the stored string that compares equal
+   to the probe; copy_iri / copy_bnode_id / copy_language_tag / copy_var_name wrap copy_str; copy_term copies every
+   string of the term (lexical form before datatype / tag; subject, predicate, object in this order) *)
+Definition stash := list str.
+Definition stash_mem (s : str) (st : stash) : bool := existsb (str_eqb s) st.
+Definition stash_add (st : stash) (s : str) : stash := if stash_mem s st then st else s :: st.
+Definition stash_get (st : stash) (s : str) : option str := find (str_eqb s) st.
+Definition copy_str (st : stash) (s : str) : stash * str :=
+  let st' := stash_add st s in (st', match stash_get st' s with Some x => x | None => s end).
+Fixpoint copy_term (st : stash) (t : term) : stash * term :=
+  match t with
+  | Iri s => let '(st1, s') := copy_str st s in (st1, Iri s')
+  | Bnode s => let '(st1, s') := copy_str st s in (st1, Bnode s')
+  | Var s => let '(st1, s') := copy_str st s in (st1, Var s')
+  | LitDt l d => let '(st1, l') := copy_str st l in let '(st2, d') := copy_str st1 d in (st2, LitDt l' d')
+  | LitLang l g => let '(st1, l') := copy_str st l in let '(st2, g') := copy_str st1 g in (st2, LitLang l' g')
+  | Triple s p o =>
+      let '(st1, s') := copy_term st s in let '(st2, p') := copy_term st1 p in
+      let '(st3, o') := copy_term st2 o in (st3, Triple s' p' o')
+  end.
+Fixpoint copy_terms (st : stash) (ts : list term) : stash * list term :=
+  match ts with
+  | [] => (st, [])
+  | t :: r => let '(st1, t') := copy_term st t in let '(st2, r') := copy_terms st1 r in (st2, t' :: r')
+  end.
+(* the strings a term is made of *)
+Fixpoint term_strs (t : term) : list str :=
+  match t with
+  | Iri s | Bnode s | Var s => [s]
+  | LitDt a b | LitLang a b => [a; b]
+  | Triple s p o => term_strs s ++ term_strs p ++ term_strs o
+  end.
+(* the terms `ts` copied in this order into a new stash: the copies handed out and the final number of strings *)
+Definition stash_run_ok (ts copies : list term) (len : N) : bool :=
+  let '(st, cs) := copy_terms [] ts in terms_same cs copies && N.eqb (N.of_nat (length st)) len.
